@@ -249,8 +249,8 @@ def recoverAll (t : Nat) (trs : List (Tracker d)) : List (Tracker d) := trs.map 
 def cellwiseI (g : Int → Rat) : Int → (Ind d → Rat) → Ind d → Rat := fun e D i => D i * g e
 def cellwiseF (g : Int → Rat) : Int → (Fd d → Rat) → Fd d → Rat := fun e D c => D c * g e
 
-/-- `linear_recovery`: `1 - elapsed / tau` -/
-def gLinear (tau : Nat) (e : Int) : Rat := 1 - (e : Rat) / (tau : Rat)
+/-- `linear_recovery`: `max(0, 1 - elapsed / tau)` -/
+def gLinear (tau : Nat) (e : Int) : Rat := max 0 (1 - (e : Rat) / (tau : Rat))
 
 /-- `convexe_recovery`: `(1 - 1/tau) ^ elapsed` (elapsed ≥ 0 in every call the simulation makes) -/
 def gConvexe (tau : Nat) (e : Int) : Rat := (1 - 1 / (tau : Rat)) ^ e.toNat
